@@ -38,11 +38,11 @@ Definition LL := list (list K).
 Definition ranges := list (Z * Z).
 
 Inductive c09_case :=
-| CChunked (src : list K) (size : Z) (count : option nat) (fill : option K)
-           (o_list o_iter : res LL)
-| CWindowed (src : list K) (size : nat) (fill : option K) (o_list o_iter : LL)
-| CPairwise (src : list K) (fill : option K) (o_list o_iter : LL)
-| CSplit (src : list K) (sep : sepk) (maxsplit : option nat) (o_list o_iter : LL)
+| CChunked (src : list K) (srck : nat) (size : Z) (count : option nat) (fill : option K)
+           (o_list o_iter : res LL) (ty_list ty_iter : nat)
+| CWindowed (src : list K) (size : nat) (fill : option K) (o_list o_iter : LL) (ty_list ty_iter : nat)
+| CPairwise (src : list K) (fill : option K) (o_list o_iter : LL) (ty_list ty_iter : nat)
+| CSplit (src : list K) (sep : sepk) (maxsplit : option nat) (o_list o_iter : LL) (ty_list ty_iter : nat)
 | CStrip (which : stripk) (src : list K) (v : K) (o_list o_iter : list K)
 | CUnique (src : list K) (key : keyk) (o_list o_iter : list K)
 | CRedundant (src : list K) (key : keyk) (o_plain : list K) (o_groups : LL)
@@ -64,18 +64,37 @@ Definition ranges_eqb : ranges -> ranges -> bool := list_eqb (pair_eqb Z.eqb Z.e
 
 Definition is_ok {A} (r : res A) : bool := match r with Ok _ => true | Raise _ => false end.
 
+(* ---- container types of the yielded groups ---------------------------------- *)
+(* code of the Python type of the groups in an output: 0 = no group observed,
+   1 = list, 2 = tuple, 3 = str, 4 = bytes, 9 = mixed / anything else.
+   srck = kind of the src argument: 3 = str, 4 = bytes, anything else = other iterable.
+   chunked_iter joins the chunks of a str/bytes input back into str/bytes
+   (postprocess); windowed yields tuples (zip); split yields lists. *)
+Definition ty_groups (expected : nat) (out : LL) : nat :=
+  match out with [] => 0 | _ => expected end.
+Definition ty_chunks (srck : nat) (r : res LL) : nat :=
+  match r with
+  | Ok out => ty_groups (if srck =? 3 then 3 else if srck =? 4 then 4 else 1) out
+  | Raise _ => 0
+  end.
+
 (* ---- agree: model = implementation ---------------------------------------- *)
 Definition c09_agree (c : c09_case) : bool :=
   match c with
-  | CChunked src size count fill ol oi =>
+  | CChunked src srck size count fill ol oi tl ti =>
       res_eqb ll_eqb (m_chunked src size count fill) ol
       && res_eqb ll_eqb (m_chunked_iter src size fill) oi
-  | CWindowed src size fill ol oi =>
+      && (ty_chunks srck (m_chunked src size count fill) =? tl)
+      && (ty_chunks srck (m_chunked_iter src size fill) =? ti)
+  | CWindowed src size fill ol oi tl ti =>
       ll_eqb (m_windowed src size fill) ol && ll_eqb (m_windowed src size fill) oi
-  | CPairwise src fill ol oi =>
+      && (ty_groups 2 (m_windowed src size fill) =? tl) && (ty_groups 2 (m_windowed src size fill) =? ti)
+  | CPairwise src fill ol oi tl ti =>
       ll_eqb (m_pairwise src fill) ol && ll_eqb (m_pairwise src fill) oi
-  | CSplit src sep maxsplit ol oi =>
+      && (ty_groups 2 (m_pairwise src fill) =? tl) && (ty_groups 2 (m_pairwise src fill) =? ti)
+  | CSplit src sep maxsplit ol oi tl ti =>
       ll_eqb (m_split sep maxsplit src) ol && ll_eqb (m_split sep maxsplit src) oi
+      && (ty_groups 1 (m_split sep maxsplit src) =? tl) && (ty_groups 1 (m_split sep maxsplit src) =? ti)
   | CStrip w src v ol oi =>
       let m := match w with StripL => m_lstrip v src | StripR => m_rstrip v src
                           | StripB => m_strip v src end in
@@ -107,7 +126,7 @@ Definition c09_agree (c : c09_case) : bool :=
    the behaviour to the model. *)
 Definition c09_holds (c : c09_case) : bool :=
   match c with
-  | CChunked src size count fill ol oi =>
+  | CChunked src _ size count fill ol oi _ _ =>
       if (size <=? 0)%Z then true
       else match ol, oi with
            | Ok l, Ok i =>
@@ -116,12 +135,12 @@ Definition c09_holds (c : c09_case) : bool :=
                && ll_eqb l (match count with None => i | Some c => firstn c i end)
            | _, _ => false
            end
-  | CWindowed src size fill ol oi =>
+  | CWindowed src size fill ol oi _ _ =>
       if size =? 0 then true
       else ll_eqb ol (spec_windowed src size fill) && ll_eqb oi ol
-  | CPairwise src fill ol oi =>
+  | CPairwise src fill ol oi _ _ =>
       ll_eqb ol (spec_windowed src 2 fill) && ll_eqb oi ol
-  | CSplit src sep maxsplit ol oi =>
+  | CSplit src sep maxsplit ol oi _ _ =>
       ll_eqb ol (spec_split sep maxsplit src) && ll_eqb oi ol
   | CStrip w src v ol oi =>
       l_eqb ol (match w with StripL => py_lstrip v src | StripR => py_rstrip v src
@@ -170,11 +189,11 @@ Inductive c09_model_out :=
 
 Definition c09_explain (c : c09_case) : c09_model_out :=
   match c with
-  | CChunked src size count fill _ _ =>
+  | CChunked src _ size count fill _ _ _ _ =>
       MLL (m_chunked src size count fill) (m_chunked_iter src size fill)
-  | CWindowed src size fill _ _ => MLL (Ok (m_windowed src size fill)) (Ok (spec_windowed src size fill))
-  | CPairwise src fill _ _ => MLL (Ok (m_pairwise src fill)) (Ok (spec_windowed src 2 fill))
-  | CSplit src sep maxsplit _ _ => MLL (Ok (m_split sep maxsplit src)) (Ok (spec_split sep maxsplit src))
+  | CWindowed src size fill _ _ _ _ => MLL (Ok (m_windowed src size fill)) (Ok (spec_windowed src size fill))
+  | CPairwise src fill _ _ _ _ => MLL (Ok (m_pairwise src fill)) (Ok (spec_windowed src 2 fill))
+  | CSplit src sep maxsplit _ _ _ _ => MLL (Ok (m_split sep maxsplit src)) (Ok (spec_split sep maxsplit src))
   | CStrip w src v _ _ =>
       ML (match w with StripL => m_lstrip v src | StripR => m_rstrip v src | StripB => m_strip v src end)
          (match w with StripL => py_lstrip v src | StripR => py_rstrip v src | StripB => py_strip v src end)
